@@ -12,14 +12,19 @@ _REAL = {}
 PURE = {
     "td": "ciderpress.dft.transform_data",
     "fn": "ciderpress.dft.feat_normalizer",
+    "settings": "ciderpress.dft.settings",
+    "kernels": "ciderpress.models.kernels",
 }
 # modules that call load_library at import time: symbolic copies get a FakeLib, real copies need built libs
 CDEP = {
-    "settings": "ciderpress.dft.settings",
     "baselines": "ciderpress.dft.baselines",
     "plans": "ciderpress.dft.plans",
     "xc_evaluator": "ciderpress.dft.xc_evaluator",
     "xc_evaluator2": "ciderpress.dft.xc_evaluator2",
+    "model_utils": "ciderpress.dft.model_utils",
+    "numint": "ciderpress.pyscf.numint",
+    "dft_kernel": "ciderpress.models.dft_kernel",
+    "train": "ciderpress.models.train",
 }
 
 
@@ -49,7 +54,7 @@ def _sym_load(k):
 
 def _real_load(k):
     path = PURE.get(k) or CDEP.get(k) or k
-    if k in CDEP or path.startswith("ciderpress.pyscf"):
+    if k not in PURE:
         from .. import replaylibs
         replaylibs.ensure()
     return importlib.import_module(path)
